@@ -392,3 +392,28 @@ M('c15-secure-host-only-forces-httponly', 'C15', 'R4', RESP,
   "        if http_only:\n            self._cookies[name]['httponly'] = http_only\n",
   "        harden = False\n        if is_secure and not domain:\n            harden = True\n"
   "        if http_only or harden:\n            self._cookies[name]['httponly'] = True\n")
+
+# ---- auto-mutation seeds (wave am)
+# sa-am02189 and siblings (R16 = C05 R12, shared): every plain-header writer stores str(value)
+_STR_NOTE = "        # to US-ASCII.\n        value = str(value)\n"
+M('c15-set-headers-value-not-stringified', 'C15', 'R16', RESP, "            value = str(value)\n", "            pass\n", also=('C05',))
+M2('c15-set-header-value-not-stringified', 'C15', 'R16',
+   [{'file': RESP, 'old': _STR_NOTE, 'new': "        # to US-ASCII.\n", 'count': 2, 'occurrence': 0}], also=('C05',))
+M2('c15-append-header-value-not-stringified', 'C15', 'R16',
+   [{'file': RESP, 'old': _STR_NOTE, 'new': "        # to US-ASCII.\n", 'count': 2, 'occurrence': 1}], also=('C05',))
+M('c15-set-headers-stringifies-name-instead', 'C15', 'R16', RESP, "            value = str(value)\n", "            name = str(name)\n", also=('C05',))
+
+# sa-am02224 (R17): a failed jar store (illegal cookie name) is not swallowed
+_JAR_RAISE = "            raise KeyError(str(e))\n"
+M('c15-cookie-error-swallowed', 'C15', 'R17', RESP, _JAR_RAISE, "            pass\n")
+M('c15-cookie-error-returns', 'C15', 'R17', RESP, _JAR_RAISE, "            return\n")
+M('c15-cookie-error-raised-only-when-strict', 'C15', 'R17', RESP, _JAR_RAISE,
+  "            if self.options.secure_cookies_by_default:\n                raise KeyError(str(e))\n")
+M2('c15-cookie-error-broad-handler-swallows', 'C15', 'R17', [
+    {'file': RESP, 'old': "        except http_cookies.CookieError as e:  # pragma: no cover\n", 'new': "        except Exception:  # pragma: no cover\n"},
+    {'file': RESP, 'old': _JAR_RAISE, 'new': "            pass\n"}])
+
+# sa-am02280 (R18 = C09 R4, shared): the ETag formatter tests the LAST character
+M('c15-etag-tests-first-char', 'C15', 'R18', HELP, "    if value[-1] != '\"':\n", "    if value[-0] != '\"':\n", also=('C09',))
+M('c15-etag-tests-index-0', 'C15', 'R18', HELP, "    if value[-1] != '\"':\n", "    if value[0] != '\"':\n", also=('C09',))
+M('c15-etag-wraps-when-quoted', 'C15', 'R18', HELP, "    if value[-1] != '\"':\n", "    if value[-1] == '\"':\n", also=('C09',))
